@@ -25,15 +25,15 @@ impl fmt::Display for Warning {
             let caret_len = (self.span.end - self.span.start).max(1);
             let annotation = self.kind.annotation();
 
+            // see CompileError: a `{:>pos$}` width above u16::MAX panics
             writeln!(
                 f,
-                "{:w$} | {:>pos$}{} {}",
+                "{:w$} | {}{} {}",
                 "",
-                "",
+                " ".repeat(caret_pos),
                 "^".repeat(caret_len),
                 annotation,
                 w = width,
-                pos = caret_pos
             )?;
         }
 
